@@ -1006,3 +1006,4 @@ M('C02', 'unrecursed-values-compared-shallowly', GEN, "            if not strict
 M('C14', 'output-renderer-prints-metadata-unconditionally', PP, '    metadata = output.get("metadata")\n    if metadata and config.metadata:', '    metadata = output.get("metadata")\n    if metadata:', 'R14.20')
 M('C14', 'format-version-not-a-detail-for-the-differ', NBD, "        '/nbformat_minor': not details,\n", "", 'R14.19')
 M('C14', 'printer-hides-every-other-cell-field-as-detail', PP, "        if starred.startswith('/cells/*/execution_count'):\n            return not self.details", "        if starred.startswith('/cells/*/'):\n            return not self.details", 'R14.19')
+M('C14', 'ignore-consulted-only-for-same-typed-values', GEN, "        if _is_ignored(config, subpath):\n            # (whatever the types of the two values: null -> 2 is a change\n            # of the ignored field like 1 -> 2)\n            continue\n", "", 'R14.7')
